@@ -1,17 +1,235 @@
-//! C02 — stub (monitor not written yet)
-use serde_json::Value;
+//! C02 — parsing recovers exactly the components of any legal spelling.
+//!
+//! Two independent oracles: the tuple a spelling was generated from (constructive), and the
+//! strict left-to-right recogniser R1 on arbitrary strings. They are also checked against each
+//! other (a disagreement is a harness error, reported as inconclusive, never as a violation).
 
-use super::Fail;
-use crate::obs::{Ctx, Tier};
+use std::fmt::Debug;
+use std::str::FromStr;
 
-pub const RULE: &str = "";
+use purl::{PackageType, PurlShape, SmallString};
+use serde_json::{json, Value};
 
-pub fn requirements(_tier: Tier) -> Vec<(&'static str, u64)> {
-    vec![("not-implemented", 1)]
+use super::{str_field, Fail};
+use crate::gen;
+use crate::model::{classify, typed_expect, Class, Comps, TypedExpect};
+use crate::obs::{self, guard, Ctx, Out, Snap, Tier};
+use crate::rng::fnv;
+use crate::shrink::shrink_str;
+use crate::spell::{self, FREEDOM_NAMES, N_FREEDOMS};
+
+pub const RULE: &str = "a case is one input string for one instantiation whose expected components are known (generated tuple, or strict recogniser says MustAccept); non-trivial = the string differs from the canonical rendering of its components (some spelling freedom was used); distinct by hash of (instantiation, string)";
+
+fn leak(s: String) -> &'static str {
+    Box::leak(s.into_boxed_str())
 }
 
-pub fn run(_ctx: &mut Ctx) {}
+pub fn requirements(tier: Tier) -> Vec<(&'static str, u64)> {
+    let mut v = vec![
+        ("must-accept:String", if tier == Tier::Quick { 500_000 } else { 5_000_000 }),
+        ("must-accept:SmallString", 100_000),
+        ("must-accept:Purl", 50_000),
+        ("spelling-pairs-compared", 100_000),
+        ("typed:unsupported-type-confirmed", 100),
+        ("typed:maven-missing-namespace-confirmed", 10),
+    ];
+    for i in 0..N_FREEDOMS as usize {
+        v.push((leak(format!("freedom:{}", FREEDOM_NAMES[i])), 100));
+        for j in (i + 1)..N_FREEDOMS as usize {
+            // upper and lower hex escapes exclude each other only within one escape, not within a string
+            v.push((leak(format!("freedom-pair:{}+{}", FREEDOM_NAMES[i], FREEDOM_NAMES[j])), 1));
+        }
+    }
+    v
+}
 
-pub fn replay(_monitor: &str, _case: &Value) -> Result<Option<Fail>, String> {
-    Err("not implemented".into())
+/// Judge the parse of `s` against expected components `c` (already type-agnostic).
+pub fn judge_expected<T>(s: &str, c: &Comps, typed: bool) -> Option<Fail>
+where
+    T: FromStr + PurlShape,
+    <T as PurlShape>::Error: From<<T as FromStr>::Err> + Debug,
+{
+    let got = obs::parse::<T>(s).map(|p| Snap::of(&p));
+    let want: Result<Comps, &str> = if typed {
+        match typed_expect(c) {
+            TypedExpect::Ok(t) => Ok(t),
+            TypedExpect::UnsupportedType => Err("UnsupportedType"),
+            TypedExpect::MissingNamespace => Err("MissingRequiredField(Namespace)"),
+        }
+    } else {
+        Ok(c.clone())
+    };
+    match (got, want) {
+        (Out::Panic(m), _) => Some(Fail::tagged("panicked", m.clone(), format!("from_str({s:?}) panicked: {m}"))),
+        (Out::Ok(snap), Ok(w)) => {
+            let ws = Snap::from_comps(&w);
+            ws.diff(&snap).map(|field| {
+                Fail::tagged("components-differ", field, format!("{s:?} spells {ws:?} but parses to {snap:?} ({field} differs)"))
+            })
+        },
+        (Out::Err(e), Ok(w)) => Some(Fail::tagged("legal-spelling-refused", e.clone(), format!("{s:?} is a legal spelling of {w:?} but the parser answers Err({e})"))),
+        (Out::Ok(snap), Err(e)) => Some(Fail::tagged("typed-accepted", e, format!("{s:?}: the typed PURL must answer {e} but accepted it as {snap:?}"))),
+        (Out::Err(got), Err(e)) => {
+            if got == e {
+                None
+            } else {
+                Some(Fail::tagged("typed-wrong-error", format!("{got} for {e}"), format!("{s:?}: the typed PURL must answer {e} but answered {got}")))
+            }
+        },
+    }
+}
+
+/// The string-only oracle: whatever R1 says must be accepted is accepted with those components.
+pub fn judge_str<T>(s: &str, typed: bool) -> (bool, Option<Fail>)
+where
+    T: FromStr + PurlShape,
+    <T as PurlShape>::Error: From<<T as FromStr>::Err> + Debug,
+{
+    match classify(s) {
+        Class::MustAccept(c) => (true, judge_expected::<T>(s, &c, typed)),
+        _ => (false, None),
+    }
+}
+
+fn judge_dyn(inst: &str, s: &str) -> (bool, Option<Fail>) {
+    match inst {
+        "String" => judge_str::<String>(s, false),
+        "SmallString" => judge_str::<SmallString>(s, false),
+        "Purl" => judge_str::<PackageType>(s, true),
+        _ => (false, None),
+    }
+}
+
+fn report(ctx: &mut Ctx, inst: &'static str, s: &str, f: Fail) {
+    let (kind, tag) = (f.kind.clone(), f.tag.clone());
+    let min = shrink_str(s, &mut |c| judge_dyn(inst, c).1.map_or(false, |g| g.kind == kind && g.tag == tag));
+    let g = judge_dyn(inst, &min).1.unwrap_or(f);
+    ctx.st.violation("C02.components", g.signature("C02.components", &min), g.detail, json!({"instantiation": inst, "input": min, "original_input": s}));
+}
+
+fn one(ctx: &mut Ctx, inst: &'static str, key: &'static str, s: &str) {
+    let (judged, f) = judge_dyn(inst, s);
+    if judged {
+        ctx.st.evaluations += 1;
+        ctx.st.count(key);
+        if inst == "Purl" {
+            if let Class::MustAccept(c) = classify(s) {
+                match typed_expect(&c) {
+                    TypedExpect::UnsupportedType => ctx.st.count("typed:unsupported-type-confirmed"),
+                    TypedExpect::MissingNamespace => ctx.st.count("typed:maven-missing-namespace-confirmed"),
+                    _ => {},
+                }
+            }
+        }
+    }
+    if let Some(f) = f {
+        report(ctx, inst, s, f);
+    }
+}
+
+fn all_insts(ctx: &mut Ctx, s: &str) {
+    one(ctx, "String", "must-accept:String", s);
+    one(ctx, "SmallString", "must-accept:SmallString", s);
+    one(ctx, "Purl", "must-accept:Purl", s);
+}
+
+pub fn run(ctx: &mut Ctx) {
+    // G1 — the strict recogniser on the complete token language
+    let (w, n, quick) = (ctx.worker, ctx.nworkers, ctx.quick());
+    let mut f = |_i: u64, s: &str| all_insts(ctx, s);
+    let (total, name) = gen::for_each_g1(quick, w, n, &mut f);
+    if ctx.worker == 0 {
+        ctx.st.exhaustive.push(json!({"name": format!("{name}; every string the strict recogniser accepts must parse to the recogniser's components"), "size": total, "completed": true, "instantiations": 3}));
+    }
+
+    // G2 — tuples x spellings
+    let mut single = [0u64; 18];
+    let mut pairs = [[0u64; 18]; 18];
+    let k_spell = if ctx.quick() { 3 } else { 4 };
+    let mut r = ctx.rng("c02.g2");
+    for _ in 0..ctx.share(400_000, 10_000_000) {
+        let known = r.chance(1, 3);
+        let t = spell::gen_tuple(&mut r, known);
+        let comps = t.comps();
+        let canon = crate::model::render_comps(&comps);
+        let mut prev: Option<(String, purl::GenericPurl<String>, String)> = None;
+        for _ in 0..k_spell {
+            let mask = spell::random_mask(&mut r);
+            let sp = spell::spell(&mut r, &t, mask);
+            let s = sp.assemble();
+            // cross-check of the two oracles (constructive vs recogniser)
+            match classify(&s) {
+                Class::MustAccept(c) if c == comps => {},
+                other => {
+                    ctx.st.count("harness-error:recogniser-disagrees-with-generator");
+                    ctx.st.set_insert("harness-errors", json!({"harness_error": "R1 vs G2", "tuple": t, "spelling": s, "recogniser": format!("{other:?}")}).to_string());
+                    continue;
+                },
+            }
+            for i in 0..18 {
+                if sp.used & (1 << i) != 0 {
+                    single[i] += 1;
+                    for j in (i + 1)..18 {
+                        if sp.used & (1 << j) != 0 {
+                            pairs[i][j] += 1;
+                        }
+                    }
+                }
+            }
+            if s != canon {
+                ctx.st.nontrivial(fnv(s.as_bytes()));
+            }
+            ctx.st.sample(|| json!({"tuple": t, "spelling": s, "canonical": canon, "freedoms_used": (0..18).filter(|i| sp.used & (1 << i) != 0).map(|i| FREEDOM_NAMES[i]).collect::<Vec<_>>()}));
+            all_insts(ctx, &s);
+            // any two spellings of one tuple: equal PURLs, identical canonical strings
+            if let Out::Ok(p) = obs::parse::<String>(&s) {
+                if let Out::Ok(c) = obs::show(&p) {
+                    if let Some((ps, pp, pc)) = &prev {
+                        ctx.st.count("spelling-pairs-compared");
+                        let eq = guard("PartialEq", || *pp == p);
+                        if eq != Out::Ok(true) || *pc != c {
+                            ctx.st.violation(
+                                "C02.spellings",
+                                format!("C02.spellings:two-spellings-differ:{}", if *pc != c { "string" } else { "eq" }),
+                                format!("{ps:?} and {s:?} spell the same components but give canonical strings {pc:?} / {c:?}, == is {}", eq.kind()),
+                                json!({"kind": "pair", "a": ps, "b": s}),
+                            );
+                        }
+                    }
+                    prev = Some((s.clone(), p, c));
+                }
+            }
+        }
+    }
+    for i in 0..18 {
+        ctx.st.dyn_counters.insert(format!("freedom:{}", FREEDOM_NAMES[i]), single[i]);
+        for j in (i + 1)..18 {
+            ctx.st.dyn_counters.insert(format!("freedom-pair:{}+{}", FREEDOM_NAMES[i], FREEDOM_NAMES[j]), pairs[i][j]);
+        }
+    }
+    // mutated corpus: judged wherever the recogniser says MustAccept
+    let (corpus, _) = gen::load_corpus();
+    let mut r = ctx.rng("c02.g10");
+    for _ in 0..ctx.share(300_000, 8_000_000) {
+        let s = gen::mutate(&mut r, &corpus);
+        all_insts(ctx, &s);
+    }
+}
+
+pub fn replay(_monitor: &str, case: &Value) -> Result<Option<Fail>, String> {
+    if case.get("kind").and_then(|v| v.as_str()) == Some("pair") {
+        let (a, b) = (str_field(case, "a")?, str_field(case, "b")?);
+        let (pa, pb) = (obs::parse::<String>(a), obs::parse::<String>(b));
+        return Ok(match (pa, pb) {
+            (Out::Ok(x), Out::Ok(y)) => {
+                if x == y && x.to_string() == y.to_string() {
+                    None
+                } else {
+                    Some(Fail::new("two-spellings-differ", format!("{a:?} vs {b:?}")))
+                }
+            },
+            _ => Some(Fail::new("two-spellings-differ", "one of the spellings is refused")),
+        });
+    }
+    Ok(judge_dyn(str_field(case, "instantiation")?, str_field(case, "input")?).1)
 }
